@@ -245,6 +245,8 @@ impl Executor {
     /// error is encountered.
     pub(crate) fn run(&mut self, timeout: Duration) -> Result<(), ExecutorError> {
         self.context.pool_manager.activate_worker();
+        #[cfg(nexosim_verif)]
+        crate::verif::point(30, 0, 0);
 
         loop {
             if let Some((model_id, payload)) = self.context.pool_manager.take_panic() {
@@ -252,6 +254,8 @@ impl Executor {
             }
 
             if self.context.pool_manager.pool_is_idle() {
+                #[cfg(nexosim_verif)]
+                crate::verif::point(31, 0, 0);
                 let msg_count = self.context.msg_count.load(Ordering::Relaxed);
                 if msg_count != 0 {
                     let msg_count: usize = msg_count.try_into().unwrap();
@@ -281,9 +285,13 @@ impl Drop for Executor {
         // Force all threads to return.
         self.abort_signal.set();
         self.context.pool_manager.activate_all_workers();
+        #[cfg(nexosim_verif)]
+        crate::verif::point(33, 0, 0);
         for handle in self.worker_handles.drain(0..) {
             handle.join().unwrap();
         }
+        #[cfg(nexosim_verif)]
+        crate::verif::point(34, 0, 0);
 
         // Drop all tasks that have not completed.
         //
@@ -520,10 +528,16 @@ fn run_local_worker(worker: &Worker, id: usize, parker: Parker, abort_signal: Si
 
             // Try to deactivate the worker.
             if pool_manager.try_set_worker_inactive(id) {
+                #[cfg(nexosim_verif)]
+                crate::verif::point(20, id, 1);
                 // No need to call `begin_worker_search()`: this was done by the
                 // thread that unparked the worker.
                 update_msg_count();
+                #[cfg(nexosim_verif)]
+                crate::verif::point(22, id, 0);
                 parker.park();
+                #[cfg(nexosim_verif)]
+                crate::verif::point(24, id, 0);
             } else if injector.is_empty() {
                 // This worker could not be deactivated because it was the last
                 // active worker. In such case, the call to
@@ -532,9 +546,15 @@ fn run_local_worker(worker: &Worker, id: usize, parker: Parker, abort_signal: Si
                 // not activate a new worker, which is why some tasks may now be
                 // visible in the injector queue.
                 pool_manager.set_all_workers_inactive();
+                #[cfg(nexosim_verif)]
+                crate::verif::point(21, id, 0);
                 update_msg_count();
+                #[cfg(nexosim_verif)]
+                crate::verif::point(25, id, 0);
                 executor_unparker.unpark();
                 parker.park();
+                #[cfg(nexosim_verif)]
+                crate::verif::point(24, id, 1);
                 // No need to call `begin_worker_search()`: this was done by the
                 // thread that unparked the worker.
             } else {
@@ -614,7 +634,11 @@ fn run_local_worker(worker: &Worker, id: usize, parker: Parker, abort_signal: Si
                     if abort_signal.is_set() {
                         return;
                     }
+                    #[cfg(nexosim_verif)]
+                    crate::verif::point(27, id, task.id());
                     task.run();
+                    #[cfg(nexosim_verif)]
+                    crate::verif::point(28, id, 0);
                 }
 
                 // Resume the search for tasks.
